@@ -174,8 +174,9 @@ def ledger(ctx, prop, runs):
     for r in runs:
         if r.get("inconclusive"):
             ctx.notes.setdefault("inconclusive_runs", []).append(r["scenario"] + ": " + r["inconclusive"])
-            continue
-        n_ok += 1
+        else:
+            n_ok += 1
+        # a run that could not be completed still stands for what it had observed before it stopped
         for f in r.get("fails") or []:
             m = re.match(r"\[(C\d+)(?:/KNOWN ([^\]]+))?\] (.*)", f, re.S)
             cls, known, text = (m.group(1), m.group(2), m.group(3)) if m else (prop, None, f)
